@@ -141,4 +141,129 @@ theorem indexedValues_eq (adj : IC FinFun) (hwf : adj.wf = true) (f : FinFun) (h
   rw [gatherP_range' _ _ _ (by omega)]
   simp [IC.segs, List.getD, splitSegs_getElem? _ _ x hxl]
 
+/-! ### `FinFun.new` -/
+
+theorem new_ok (t : List Nat) (k : Nat) (h : ∀ x ∈ t, x < k) : FinFun.new t k = .ok ⟨t, k⟩ :=
+  (C06.new_accepts_iff t k).1.mpr h
+
+/-! ### dense indegree -/
+
+open Graph in
+/-- the dense indegree: entry `y` is the number of occurrences of `y` among all successor
+    lists; the codomain `adj.values.source + 1` always suffices -/
+theorem indegree_eq (adj : IC FinFun) (hwf : adj.wf = true) (ht : adj.values.target = adj.len) :
+    indegree adj = .ok ⟨(List.range adj.len).map (fun y => adj.values.table.count y),
+      adj.values.source + 1⟩ := by
+  have hid : (⟨List.range adj.len, adj.len⟩ : FinFun).WF := by
+    intro x hx; exact List.mem_range.mp hx
+  have hiv := indexedValues_eq adj hwf ⟨List.range adj.len, adj.len⟩ hid rfl
+  simp only at hiv
+  rw [← segs_length adj, range_flatMap_getD, segs_flatten adj hwf] at hiv
+  have hlt : ∀ i ∈ adj.values.table, i < adj.len := by
+    intro i hi; rw [← ht]; exact (wf_unpack adj hwf).2 i hi
+  have hnew : FinFun.new ((List.range adj.len).map (fun y => adj.values.table.count y))
+      (adj.values.source + 1) = .ok ⟨(List.range adj.len).map (fun y => adj.values.table.count y),
+        adj.values.source + 1⟩ := by
+    apply new_ok
+    intro c hc
+    obtain ⟨y, _, rfl⟩ := List.mem_map.mp hc
+    have := List.count_le_length (a := y) (l := adj.values.table)
+    simp only [FinFun.source]
+    omega
+  unfold indegree denseRelativeIndegree
+  rw [FinFun.identity_eq]
+  simp only [Res.ok_bind, ne_eq, not_true_eq_false, if_false]
+  rw [segs_length] at hiv
+  rw [hiv]
+  simp only [Res.unwrap_ok, Res.ok_bind]
+  rw [Prim.bincount_ok _ _ hlt]
+  simp only [Res.ok_bind]
+  rw [hnew]
+  rfl
+
+/-! ### sparse relative indegree -/
+
+theorem sublist_sum_le {l₁ l₂ : List Nat} (h : l₁.Sublist l₂) : l₁.sum ≤ l₂.sum := by
+  induction h with
+  | slnil => exact Nat.le_refl _
+  | cons a _ ih => simp only [List.sum_cons]; omega
+  | cons_cons a _ ih => simp only [List.sum_cons]; omega
+
+theorem nodup_map_sum_le (fr : List Nat) (n : Nat) (f : Nat → Nat) (hnd : fr.Nodup)
+    (hlt : ∀ x ∈ fr, x < n) : (fr.map f).sum ≤ ((List.range n).map f).sum := by
+  have hsub : fr.Subperm (List.range n) :=
+    List.subperm_of_subset hnd (fun x hx => List.mem_range.mpr (hlt x hx))
+  obtain ⟨l, hl, hs⟩ := hsub
+  rw [← (hl.map f).sum_nat]
+  exact sublist_sum_le (hs.map f)
+
+/-- the number of entries reached from a duplicate-free frontier is at most the number of all
+    entries -/
+theorem reached_length_le (adj : IC FinFun) (hwf : adj.wf = true) (fr : List Nat)
+    (hnd : fr.Nodup) (hlt : ∀ x ∈ fr, x < adj.len) :
+    (fr.flatMap (fun x => adj.segs.getD x [])).length ≤ adj.values.source := by
+  have h1 := nodup_map_sum_le fr adj.len (fun x => (adj.segs.getD x []).length) hnd hlt
+  have h2 : ((List.range adj.len).map (fun x => (adj.segs.getD x []).length)).sum =
+      adj.values.source := by
+    have := congrArg List.length (range_flatMap_getD adj.segs)
+    rw [segs_length, segs_flatten adj hwf, List.length_flatMap] at this
+    exact this
+  rw [List.length_flatMap]
+  omega
+
+theorem mem_reached (adj : IC FinFun) (fr : List Nat) (y : Nat) :
+    y ∈ fr.flatMap (fun x => adj.segs.getD x []) ↔
+      ∃ x ∈ fr, ∃ seg, adj.segs[x]? = some seg ∧ y ∈ seg := by
+  simp only [List.mem_flatMap, List.getD]
+  constructor
+  · rintro ⟨x, hx, hy⟩
+    cases h : adj.segs[x]? with
+    | none => simp [h] at hy
+    | some seg => exact ⟨x, hx, seg, h, by simpa [h] using hy⟩
+  · rintro ⟨x, hx, seg, hs, hy⟩
+    exact ⟨x, hx, by simpa [hs] using hy⟩
+
+theorem reached_lt (adj : IC FinFun) (hwf : adj.wf = true) (fr : List Nat) (y : Nat)
+    (hy : y ∈ fr.flatMap (fun x => adj.segs.getD x [])) : y < adj.values.target := by
+  obtain ⟨x, _, seg, hs, hy⟩ := (mem_reached adj fr y).mp hy
+  exact segs_lt adj hwf seg (List.mem_of_getElem? hs) y hy
+
+open Graph in
+/-- for a lawful backend, along a duplicate-free frontier: both checked constructors succeed;
+    the keys are the distinct reached nodes and the counts their multiplicities (by
+    `Backend.Lawful`) -/
+theorem sparseRelativeIndegree_eq (B : Backend) (hB : B.Lawful) (adj : IC FinFun)
+    (hwf : adj.wf = true) (ht : adj.values.target = adj.len) (fr : List Nat) (hnd : fr.Nodup)
+    (hlt : ∀ x ∈ fr, x < adj.len) :
+    sparseRelativeIndegree B adj ⟨fr, adj.len⟩ =
+      .ok (⟨(B.sparseBincount (fr.flatMap (fun x => adj.segs.getD x []))).1, adj.len⟩,
+           ⟨(B.sparseBincount (fr.flatMap (fun x => adj.segs.getD x []))).2,
+             adj.values.source + 1⟩) := by
+  have hiv := indexedValues_eq adj hwf ⟨fr, adj.len⟩ hlt rfl
+  simp only at hiv
+  generalize hg : fr.flatMap (fun x => adj.segs.getD x []) = g at hiv
+  have hkeys : ∀ v ∈ (B.sparseBincount g).1, v < adj.len := by
+    intro v hv
+    rw [hB.sb_mem] at hv
+    rw [← ht]; subst hg
+    exact reached_lt adj hwf fr v hv
+  have hcounts : ∀ c ∈ (B.sparseBincount g).2, c < adj.values.source + 1 := by
+    intro c hc
+    obtain ⟨k, hk, rfl⟩ := List.getElem_of_mem hc
+    have hk' : k < (B.sparseBincount g).1.length := by rw [← hB.sb_length]; exact hk
+    have := hB.sb_count g k _ (List.getElem?_eq_getElem hk')
+    rw [List.getElem?_eq_getElem hk] at this
+    injection this with this
+    rw [this]
+    have h1 := List.count_le_length (a := (B.sparseBincount g).1[k]) (l := g)
+    have h2 := reached_length_le adj hwf fr hnd hlt
+    rw [hg] at h2
+    omega
+  unfold sparseRelativeIndegree
+  simp only [ne_eq, not_true_eq_false, if_false]
+  rw [hiv]
+  simp only [Res.unwrap_ok, Res.ok_bind, Prim.sparseBincount]
+  rw [new_ok _ _ hkeys, new_ok _ _ hcounts]
+  rfl
+
 end OH.Kahn
